@@ -233,6 +233,7 @@ class Repo:
         self.parsed_files: List[str] = []
         self.normalisation_notes: List[str] = []
         overrides = overrides or {}
+        parsed: List[Tuple[str, str, str, ast.Module]] = []
         pkgdir = os.path.join(self.root, PKG)
         if not os.path.isdir(pkgdir):
             raise AnchorMissing(f"anchor vanished: package directory {pkgdir} not found")
@@ -256,17 +257,33 @@ class Repo:
                 name = inner[:-3].replace(os.sep, ".")
                 if name.endswith(".__init__"):
                     name = name[: -len(".__init__")]
-                # behaviour-preserving normalisation (normalize.py): new private helpers inlined, `x = a if c else b` as if/else
-                from .normalize import normalise
+                parsed.append((name, rel, src, tree))
+        # N0: private functions that were merely renamed get their inventory name back, in every module that refers to them
+        from .normalize import normalise, renamed_private_functions, apply_renames
+        renames: Dict[str, str] = {}
+        if not os.environ.get("GBSA_NO_NORMALIZE"):
+            for name, rel, src, tree in parsed:
                 try:
-                    self.normalisation_notes.extend(normalise(tree, name))
-                except Exception as e:        # the normaliser must never make the analysis worse than not having it
-                    self.normalisation_notes.append(f"{name}: normalisation skipped ({type(e).__name__}: {e})")
-                    tree = ast.parse(src, filename=rel)
-                mod = Module(name=name, relpath=rel, source=src, tree=tree)
-                _index_functions(mod)
-                self.modules[name] = mod
-                self.parsed_files.append(rel)
+                    r = renamed_private_functions(tree, name)
+                except Exception as e:
+                    r = {}
+                    self.normalisation_notes.append(f"{name}: rename recovery skipped ({type(e).__name__}: {e})")
+                for new_, old_ in r.items():
+                    self.normalisation_notes.append(f"{name}: private function {new_} is taken to be the renamed {old_}")
+                renames.update(r)
+        for name, rel, src, tree in parsed:
+            if renames:
+                apply_renames(tree, renames)
+            # behaviour-preserving normalisation (normalize.py): new private helpers inlined, `x = a if c else b` as if/else, ...
+            try:
+                self.normalisation_notes.extend(normalise(tree, name))
+            except Exception as e:        # the normaliser must never make the analysis worse than not having it
+                self.normalisation_notes.append(f"{name}: normalisation skipped ({type(e).__name__}: {e})")
+                tree = ast.parse(src, filename=rel)
+            mod = Module(name=name, relpath=rel, source=src, tree=tree)
+            _index_functions(mod)
+            self.modules[name] = mod
+            self.parsed_files.append(rel)
         for inner in CORE_MODULES:
             name = inner[:-3].replace("/", ".")
             if name not in self.modules:
